@@ -54,10 +54,10 @@ def gen(rng, scenario, tier):
                         "check_seed": rng.randrange(2**31)}, "events": []}
     if scenario == "long":
         # a long epoch of a very accurate classifier: single samples then move a rate by less than 1e-5
-        cfg = {"time_decay_factor": rng.choice([0.9, 0.99]), "warning_level": 0.05, "detect_level": 0.01, "burn_in": rng.choice([10 ** 6, 10 ** 6, 600]), "num_mc": 4,
+        cfg = {"time_decay_factor": rng.choice([0.9, 0.99, 0.999]), "warning_level": 0.05, "detect_level": 0.01, "burn_in": rng.choice([10 ** 6, 10 ** 6, 600, 1300]), "num_mc": 4,
                "subsample": rng.choice([50, 97]), "rates_tracked": ["tpr", "tnr", "ppv", "npv"], "round_val": 4}
         ev = []
-        for t in range(rng.randint(700, 1500)):
+        for t in range(rng.randint(700, 2200)):
             yt = 1 if rng.random() < 0.8 else 0
             ev.append([yt, yt if rng.random() < 0.997 else 1 - yt, np_seed(rng)])
         return {"cfg": cfg, "events": ev}
